@@ -88,11 +88,29 @@ pub fn write_elf_layout(spec: &ElfSpec) -> (Vec<u8>, Layout) {
     let mut file = vec![0u8; phoff + phnum * 56];
     // segment data: offset congruent to vaddr modulo the page size, as linkers do
     let mut seg_off = vec![0u64; spec.segs.len()];
+    // p_align actually written: a requested alignment above the page size (0x200000 is what older linkers emit)
+    // is honoured - p_offset = p_vaddr modulo it - when that costs no more than 64 KiB of padding
+    let mut seg_align = vec![0u64; spec.segs.len()];
     for (i, s) in spec.segs.iter().enumerate() {
-        let mut off = file.len() as u64;
-        let want = s.vaddr & 0xfff;
-        if off & 0xfff != want {
-            off = (off & !0xfff) + want + if (off & 0xfff) > want { 0x1000 } else { 0 };
+        let place = |m: u64, len: u64| -> u64 {
+            let want = s.vaddr & (m - 1);
+            let base = len & !(m - 1);
+            if base + want >= len {
+                base + want
+            } else {
+                base + m + want
+            }
+        };
+        let len = file.len() as u64;
+        let mut off = place(0x1000, len);
+        seg_align[i] = s.align;
+        if s.align > 0x1000 && s.align.is_power_of_two() {
+            let big = place(s.align, len);
+            if big - len <= 0x10000 {
+                off = big;
+            } else {
+                seg_align[i] = 0x1000;
+            }
         }
         file.resize(off as usize, 0);
         seg_off[i] = off;
@@ -120,7 +138,7 @@ pub fn write_elf_layout(spec: &ElfSpec) -> (Vec<u8>, Layout) {
         put64(&mut ph, s.paddr);
         put64(&mut ph, s.data.len() as u64);
         put64(&mut ph, s.memsz);
-        put64(&mut ph, s.align);
+        put64(&mut ph, seg_align[si]);
         types.push(PT_LOAD);
     }
     for e in extra_iter {
@@ -289,7 +307,7 @@ pub fn gen_spec_at(rng: &mut Rng, rich: bool, first_page: Option<u64>) -> ElfSpe
         // (rich: also the OS- and processor-specific bits PF_MASKOS / PF_MASKPROC, which a loader has to ignore)
         let flags = if rich { rng.below(8) as u32 | *rng.pick(&[0u32, 0, 0, 0x0010_0000, 0x8000_0000, 0x0ff0_0000, 0xf000_0000]) } else { *rng.pick(&[4u32, 5, 6]) };
         let paddr = if rich { match rng.below(6) { 0 => 0, 1 => rng.val(), 2 => vaddr.wrapping_add(0x1000_0000), _ => vaddr } } else { vaddr };
-        let align = if rich { *rng.pick(&[0x1000u64, 0x1000, 0x1000, 0, 1, 0x10, 0x100, 0x800]) } else { 0x1000 };
+        let align = if rich { *rng.pick(&[0x1000u64, 0x1000, 0x1000, 0, 1, 0x10, 0x100, 0x800, 0x2000, 0x10000, 0x20_0000, 0x20_0000]) } else { 0x1000 };
         segs.push(Seg { flags, vaddr, data, memsz, paddr, align });
         // next segment: on a distinct page, sometimes the very next one
         // an empty segment occupies no page, but it still gets a page of its own: nothing else is placed around its address
